@@ -545,7 +545,7 @@ func runCheck(c *Check, tier, replay string, keep bool, shardsOverride int) int 
 		defer os.RemoveAll(work)
 	}
 	evidencePath := filepath.Join(verifRoot, "evidence", c.ID+".json")
-	if replay == "" {
+	if replay == "" && (repoRoot == "/repo" || os.Getenv("VERIF_WRITE_EVIDENCE") != "") {
 		os.Remove(evidencePath)
 	}
 	bin, err := buildHarness(c, work)
